@@ -167,6 +167,11 @@ def r20b(ctx: Context) -> None:
     rule = ctx.rule("R20b", "enabled flags mean 'this extension's id is in the enabled list'", 12)
     manager = prog.cls(EM)
     apply_fn = prog.method(EM, "apply_configuration")
+    # the functions that run, unconditionally, whenever the configuration is applied
+    apply_closure = [apply_fn]
+    for site in prog.sites_in(apply_fn):
+        if not guards_of(apply_fn.node, site.node):
+            apply_closure.extend(t for t in site.targets if t.cls == manager and t not in apply_closure)
     # each property must evaluate to '<its extension class>().get_identifier() in <enabled list>' - returned
     # directly, through a field that apply_configuration assigns once and unconditionally, or through a helper
     def resolve(func: FuncInfo, expr: ast.AST, bindings: Dict[str, ast.AST], depth: int = 0) -> Tuple[Optional[str], Optional[str], str]:
@@ -188,15 +193,24 @@ def r20b(ctx: Context) -> None:
             field = expr.attr
             writers = [(m, n) for m in manager.methods.values() for n in walk_local(m.node) if isinstance(n, (ast.Assign, ast.AnnAssign)) and getattr(n, "value", None) is not None
                        and any(isinstance(t, ast.Attribute) and t.attr == field for t in (n.targets if isinstance(n, ast.Assign) else [n.target]))]
-            outside = [(m, n) for m, n in writers if m.name not in ("apply_configuration", "__init__")]
+            outside = [(m, n) for m, n in writers if m not in apply_closure and m.name != "__init__"]
             if outside:
                 return None, None, f"'{field}' is also written by {outside[0][0].short}"
-            inside = [n for m, n in writers if m.name == "apply_configuration"]
+            inside = [(m, n) for m, n in writers if m in apply_closure]
             if len(inside) != 1:
-                return None, None, f"'{field}' is assigned {len(inside)} times in apply_configuration"
-            if guards_of(apply_fn.node, inside[0]):
+                return None, None, f"'{field}' is assigned {len(inside)} times while the configuration is applied"
+            writer, assignment = inside[0]
+            if guards_of(writer.node, assignment):
                 return None, None, f"'{field}' is assigned conditionally"
-            return resolve(apply_fn, inside[0].value, {}, depth + 1)
+            return resolve(writer, assignment.value, {}, depth + 1)
+        if isinstance(expr, ast.Call) and isinstance(expr.func, ast.Name):
+            # a function defined inside this one (a local closure)
+            nested = [n for n in ast.walk(func.node) if isinstance(n, ast.FunctionDef) and n is not func.node and n.name == expr.func.id]
+            if len(nested) == 1:
+                returned = [r.value for r in ast.walk(nested[0]) if isinstance(r, ast.Return) and r.value is not None]
+                parameters = [a.arg for a in nested[0].args.args]
+                if len(returned) == 1 and len(parameters) == len(expr.args):
+                    return resolve(func, returned[0], dict(zip(parameters, expr.args)), depth + 1)
         if isinstance(expr, ast.Call):
             site = site_for(prog, func, expr)
             if site and len(site.targets) == 1 and site.targets[0].cls == manager:
@@ -222,13 +236,13 @@ def r20b(ctx: Context) -> None:
         else:
             rule.fail(key, where(method), f"{prop} is not '{cls_name}().get_identifier() in <enabled list>' ({problem}): the flag can be true while the extension is disabled")
     # the enabled list grows only under the enabled decision
-    appends = [n for n in walk_local(apply_fn.node) if isinstance(n, ast.Call) and isinstance(n.func, ast.Attribute) and n.func.attr == "append" and "enabled_extensions" in norm(n.func.value)]
-    for node in appends:
-        facts = [norm(t) for t, p in guards_of(apply_fn.node, node) if p]
-        key = func_key(apply_fn, node)
+    appends = [(holder, n) for holder in apply_closure for n in walk_local(holder.node) if isinstance(n, ast.Call) and isinstance(n.func, ast.Attribute) and n.func.attr == "append" and "enabled_extensions" in norm(n.func.value)]
+    for holder, node in appends:
+        facts = [norm(t) for t, p in guards_of(holder.node, node) if p]
+        key = func_key(holder, node)
         decided = False
         for fact in facts:
-            for assign in walk_local(apply_fn.node):
+            for assign in walk_local(holder.node):
                 if isinstance(assign, ast.Assign) and isinstance(assign.value, ast.Call) and "determine_if_extension_enabled" in norm(assign.value.func):
                     names = [norm(e) for t in assign.targets for e in (t.elts if isinstance(t, ast.Tuple) else [t])]
                     if fact in names:
@@ -236,7 +250,7 @@ def r20b(ctx: Context) -> None:
         if decided:
             rule.ok(key, "appended only when the enabled decision is true")
         else:
-            rule.fail(key, where(apply_fn, node), f"an extension id is added to the enabled list under {facts}, not under its enabled decision")
+            rule.fail(key, where(holder, node), f"an extension id is added to the enabled list under {facts}, not under its enabled decision")
     if not appends:
         raise AnalysisError("apply_configuration never fills the enabled list")
     # parser properties: each copy pairs with the same-named manager flag
@@ -244,8 +258,8 @@ def r20b(ctx: Context) -> None:
     pairs = {"front_matter": "is_front_matter_enabled", "pragmas": "is_linter_pragmas_enabled", "disallow_raw_html": "is_disallow_raw_html_enabled", "task_lists": "is_task_list_items_enabled"}
     found = 0
     for node in walk_local(props_init.node):
-        if isinstance(node, ast.Assign):
-            for target in node.targets:
+        if isinstance(node, (ast.Assign, ast.AnnAssign)) and getattr(node, "value", None) is not None:
+            for target in (node.targets if isinstance(node, ast.Assign) else [node.target]):
                 for tgt, value, _ in Program._unpack(target, node.value):
                     if isinstance(tgt, ast.Attribute) and isinstance(value, ast.Attribute) and value.attr in FLAG_CLASSES:
                         found += 1
